@@ -22,6 +22,7 @@ import (
 	"go.sia.tech/core/consensus"
 	"go.sia.tech/core/types"
 	"verif/internal/chaingen"
+	"verif/internal/chainmon"
 	"verif/internal/elems"
 	"verif/internal/harness"
 )
@@ -240,6 +241,11 @@ func run(b *harness.B) {
 		net := chaingen.GenNet(rng, fam, b.Batch*100+i)
 		c := chaingen.NewChain(net, rng)
 		var stack []*applied // stack[k] describes block at height k+1
+		// a consumer that stores tree nodes instead of proofs: fed by ForEachTreeNode of every apply and revert update,
+		// its nodes are those of the parent state again after a revert
+		nodeMon := chainmon.NewForestMon("C06", b)
+		nodeMon.CheckTreeNodes = true
+		nodeMon.OnApply(c.GenesisEvent)
 		var pendingSnap []string
 		reapplyExpect := map[types.BlockID]*applied{}
 
@@ -251,6 +257,7 @@ func run(b *harness.B) {
 			if len(ev.Kinds) >= 3 {
 				b.Sample(chaingen.DescribeBlock(ev.Prev, ev.Block, ev.Kinds))
 			}
+			nodeMon.OnApply(ev)
 			a := &applied{snapBefore: pendingSnap, stateEnc: enc(ev.Next), block: ev.Block, supp: ev.Supp, kinds: ev.Kinds, id: ev.Next.Index.ID}
 			a.auJSON, _ = json.Marshal(ev.AU)
 			a.sc, a.sf, a.fc, a.v2 = records(ev.AU)
@@ -289,6 +296,7 @@ func run(b *harness.B) {
 			}
 		}
 		c.OnStoreReverted = func(ev chaingen.RevertEvent) {
+			nodeMon.OnRevert(ev)
 			a := stack[len(stack)-1]
 			stack = stack[:len(stack)-1]
 			reapplyExpect[a.id] = a
